@@ -31,7 +31,7 @@ package kmerindex
 //@   loop 2 invariant basePosition == position + ki.k - 1 && high <= basePosition && (high == 0 || high > start) && (start <= position || basePosition >= end) && (basePosition <= end || basePosition <= start + ki.k - 1)
 //@   loop 2 invariant forall t int :: start <= t && high <= t && t < basePosition ==> validAt(ki, s, t)
 //@   loop 2 invariant high > start ==> !validAt(ki, s, high - 1)
-//@   loop 2 invariant lastCall(0) < position && forall p int :: p >= start ==> (calledAt(p) <==> (p < position && validWindow(ki, s, p)))
+//@   loop 2 invariant (lastCall(0) < position || basePosition >= end) && forall p int :: p >= start ==> (calledAt(p) <==> (p < position && validWindow(ki, s, p)))
 //@   loop 2 decreases end - basePosition
 
 // ---- KmerPositions (C10): the positions of a word are the block of pos delimited by the finger table ----
